@@ -91,3 +91,208 @@ def sample_of(run):
 
 def agp_design_mc(ctx, pid):
     return {"states": 0, "transitions": 0, "configs": []}
+
+
+# ------------------------------------------------------------------ C03
+def stop_grid_runs(ctx):
+    """eps x itersLimit grid incl. limits 1, 2 and eps >= 1; binding and non-binding budgets; Solve entered with the
+    stop criterion already true (second Solve, DoGlobalIteration(k >= limit) before Solve)."""
+    rng = ctx.rng
+    runs = []
+    epss = [2.0, 1.0, 0.5, 0.25, 0.125, 0.1, 0.03, 0.01]
+    limits = [1, 2, 3, 5, 8, 13, 24, 40, 1000]
+    combos = [(e, l) for e in epss for l in limits]
+    if ctx.quick:
+        combos = rng.sample(combos, 40) + [(2.0, 1), (1.0, 2), (0.5, 1), (0.01, 2), (0.01, 1), (0.25, 1000)]
+    reps = 1 if ctx.quick else 6
+    for (eps, limit) in combos:
+        for _ in range(reps):
+            prob = random_problem(rng)
+            n = prob.numberOfFloatVariables
+            r = rng.choice([2.0, 3.5, rng.uniform(1.1, 8)])
+            if limit == 1000 and n >= 3 and eps < 0.05:
+                eps = 0.08
+            run = SolverRun(prob, r=r, eps=eps, limit=limit, m=10 if n * 10 <= 50 else 50 // n, tag=prob.name, full_snap=False)
+            mode = rng.choice(["solve", "solve", "solve2", "dgi_over", "dgi_exact", "dgi_part"])
+            if mode == "dgi_over":
+                run.dgi(min(limit + rng.randint(0, 2), 60))
+            elif mode == "dgi_exact":
+                run.dgi(min(limit, 60))
+            elif mode == "dgi_part" and limit > 1:
+                for k in compositions(rng, rng.randint(1, min(limit - 1, 30))):
+                    run.dgi(k)
+            run.solve()
+            if mode == "solve2" or rng.random() < 0.3:
+                run.solve()
+                if rng.random() < 0.3:
+                    run.solve()
+            runs.append(run)
+    return runs
+
+
+# ------------------------------------------------------------------ C04
+def equal_value_runs(ctx, count):
+    """objectives with many equal values; batches with k > 1; snapshots inside listener callbacks"""
+    rng = ctx.rng
+    runs = []
+    for _ in range(count):
+        n = rng.choice([1, 1, 2, 3])
+        lo, up = rand_box_solver(rng, n)
+        kind = rng.choice(["const", "steps", "twovalue", "plateau", "wave"])
+        w = [b - a for a, b in zip(lo, up)]
+        if kind == "const":
+            f = lambda y: 2.5                                                     # noqa: E731
+        elif kind == "steps":
+            f = lambda y: float(sum(math.floor(3 * (t - a) / wi) for t, a, wi in zip(y, lo, w)))   # noqa: E731
+        elif kind == "twovalue":
+            f = lambda y: 0.0 if (y[0] - lo[0]) / w[0] < 0.3 else 1.0           # noqa: E731
+        elif kind == "plateau":
+            f = lambda y: max(0.0, abs((y[0] - lo[0]) / w[0] - 0.6) - 0.2)      # noqa: E731
+        else:
+            f = lambda y: math.sin(3 * (y[0] - lo[0]) / w[0] * 4 / 3.0 * 3) + 0.3 * (y[0] - lo[0]) / w[0] * 4   # noqa: E731
+        prob = FnProblem(n, lo, up, f, kind)
+        r, eps, limit, m = rand_params(rng, n)
+        run = SolverRun(prob, r=r, eps=eps, limit=limit, m=m, tag=kind)
+        for k in compositions(rng, rng.randint(2, min(limit, 30))):
+            run.dgi(k)
+        run.solve()
+        runs.append(run)
+    return runs
+
+
+# ------------------------------------------------------------------ C05
+def box_runs(ctx, count):
+    """minimum outside / on the boundary, asymmetric boxes, refinement on and off, N = 1..5"""
+    rng = ctx.rng
+    runs = []
+    for i in range(count):
+        n = rng.choice([1, 2, 2, 3, 4, 5])
+        lo, up = rand_box_solver(rng, n)
+        w = [b - a for a, b in zip(lo, up)]
+        kind = rng.choice(["linear", "out_quad", "neg_norm", "corner", "monotone_exp", "big_offset", "face"])
+        if kind == "linear":
+            g = [rng.choice([-1, 1]) * rng.uniform(0.5, 2) for _ in range(n)]
+            f = lambda y, g=g: sum(gi * (t - a) / wi for gi, t, a, wi in zip(g, y, lo, w))          # noqa: E731
+        elif kind == "out_quad":
+            c = [a - rng.uniform(0.05, 0.5) * wi if rng.random() < 0.5 else b + rng.uniform(0.05, 0.5) * wi for a, b, wi in zip(lo, up, w)]
+            f = lambda y, c=c: sum(((t - ci) / wi) ** 2 for t, ci, wi in zip(y, c, w))              # noqa: E731
+        elif kind == "neg_norm":
+            c = [(a + b) / 2 for a, b in zip(lo, up)]
+            f = lambda y, c=c: -math.sqrt(sum(((t - ci) / wi) ** 2 for t, ci, wi in zip(y, c, w)))  # noqa: E731
+        elif kind == "corner":
+            f = lambda y: sum(abs((t - a) / wi) for t, a, wi in zip(y, up, w))                      # noqa: E731
+        elif kind == "monotone_exp":
+            f = lambda y: math.exp(-sum((t - a) / wi for t, a, wi in zip(y, lo, w)))                # noqa: E731
+        elif kind == "big_offset":
+            c = [rng.uniform(a, b) for a, b in zip(lo, up)]
+            f = lambda y, c=c: 1e6 + 0.2 * sum(((t - ci) / wi * 4) ** 2 - 3 * math.cos(2 * math.pi * (t - ci) / wi * 4) for t, ci, wi in zip(y, c, w))   # noqa: E731
+        else:
+            c = [a if rng.random() < 0.5 else b for a, b in zip(lo, up)]      # minimiser exactly on faces
+            f = lambda y, c=c: sum(((t - ci) / wi) ** 2 for t, ci, wi in zip(y, c, w))              # noqa: E731
+        prob = FnProblem(n, lo, up, f, kind)
+        r, eps, limit, m = rand_params(rng, n)
+        limit = rng.choice([20, 60, 200, 400])          # refinement budget is 5% of the limit
+        refine = rng.random() < 0.75
+        run = SolverRun(prob, r=r, eps=eps, limit=limit, m=m, refine=refine, tag=kind, full_snap=False)
+        if rng.random() < 0.3:
+            run.dgi(rng.randint(1, 10))
+            if rng.random() < 0.5:
+                run.localref(rng.choice([10, 40]))
+        run.solve()
+        runs.append(run)
+    return runs
+
+
+# ------------------------------------------------------------------ C20
+def density_runs(ctx):
+    rng = ctx.rng
+    runs = []
+    combos = [(n, m) for n in (2, 3, 4, 5) for m in range(2, 13) if n * m <= 60]
+    if ctx.quick:
+        combos = [(n, m) for (n, m) in combos if m in (2, 3, 5, 8, 10, 11, 12)]
+    rng.shuffle(combos)      # density order matters for state shared between Evolvent objects
+    for (n, m) in combos:
+        for _ in range(1 if ctx.quick else 5):
+            prob = random_problem(rng, n)
+            r, eps, limit, _ = rand_params(rng, n)
+            run = SolverRun(prob, r=r, eps=eps, limit=min(limit, 40), m=m, tag=prob.name, full_snap=False)
+            run.solve()
+            runs.append(run)
+    return runs
+
+
+# ------------------------------------------------------------------ several solvers alive at once
+def interleaved_runs(ctx, groups, full_snap=True, steps=8):
+    """Two or three solvers on different problems whose public calls are interleaved; every solver is observed
+    (GetResults + search information) after every step of any of them."""
+    rng = ctx.rng
+    runs = []
+    for _ in range(groups):
+        k = rng.choice([2, 2, 3])
+        n = rng.choice([1, 2, 2, 3])
+        grp = []
+        for j in range(k):
+            prob = random_problem(rng, rng.choice([n, n, rng.choice([1, 2, 3])]))
+            r, eps, limit, m = rand_params(rng, prob.numberOfFloatVariables)
+            grp.append(SolverRun(prob, r=r, eps=eps, limit=limit, m=m, tag=prob.name + "/multi", full_snap=full_snap,
+                                 listener=rng.choice(["rec", "none"])))
+        for _ in range(steps):
+            a = rng.choice(grp)
+            a.dgi(rng.choice([1, 1, 2, 3]))
+            for b in grp:
+                if b is not a:
+                    b.observe()
+        for a in rng.sample(grp, len(grp)):
+            a.solve()
+            for b in grp:
+                b.observe()
+        runs += grp
+    return runs
+
+
+# ------------------------------------------------------------------ failures
+EXC = [Exception, ValueError, ZeroDivisionError, TypeError, KeyboardInterrupt, SystemExit, GeneratorExit]
+
+
+class CustomBase(BaseException):
+    pass
+
+
+def fault_runs(ctx, count, phase="global", full_snap=True, types=None):
+    """A base run to learn the number of evaluations, then runs with the objective raising at evaluation k."""
+    rng = ctx.rng
+    runs = []
+    types = types or (EXC + [CustomBase])
+    for _ in range(count):
+        n = rng.choice([1, 1, 2, 3])
+        lo, up = rand_box_solver(rng, n)
+        seed = rng.randrange(1 << 30)
+        import random as _r
+        name, f = objective_zoo(_r.Random(seed), n, lo, up)
+        if phase == "local":
+            w = [b - a for a, b in zip(lo, up)]
+            g = [rng.choice([-1, 1]) * rng.uniform(0.5, 2) for _ in range(n)]
+            name, f = "linear", (lambda y, g=g: sum(gi * (t - a) / wi for gi, t, a, wi in zip(g, y, lo, w)))
+        r, eps, limit, m = rand_params(rng, n)
+        limit = max(limit, 60) if phase == "local" else limit
+        base = SolverRun(FnProblem(n, lo, up, f, name), r=r, eps=eps, limit=limit, m=m, refine=(phase == "local"),
+                         tag=name + "/base", full_snap=False)
+        base.solve()
+        nglob = sum(1 for e in base.events if e["ev"] == "trial")
+        nall = len(base.rp.log)
+        runs.append(base)
+        if phase == "global":
+            ks = [k for k in range(2, nglob + 1)]
+            ks = ks if len(ks) <= 6 else rng.sample(ks, 6)
+        else:
+            ks = [k for k in range(nglob + 1, nall + 1)]
+            ks = ks if len(ks) <= 3 else rng.sample(ks, 3)
+        for k in ks:
+            exc = rng.choice(types)
+            run = SolverRun(FnProblem(n, lo, up, f, name), r=r, eps=eps, limit=limit, m=m, refine=(phase == "local"),
+                            fault=(k, exc("injected")), tag="%s/fault@%d:%s" % (name, k, exc.__name__), full_snap=full_snap)
+            if rng.random() < 0.3 and k > 3 and phase == "global":
+                run.dgi(rng.randint(1, k - 2))
+            run.solve()
+            runs.append(run)
+    return runs
